@@ -22,8 +22,10 @@ theorem denN_of_same_l2v {t t' : Tbl} (hl : t'.l2v = t.l2v) (u : Int) (σ : AsgN
   unfold denN Tbl.lift Tbl.nameOf
   rw [hl]; exact hden _
 
-/-- the specification of `reorder(bdd)` (sifting) that dynamic reordering relies on;
-it is what C07 states about sifting. -/
+/-- the specification of `reorder(bdd)` (sifting) that dynamic reordering was first stated
+against.  SUPERSEDED: it quantifies over every state satisfying `Inv`, which constrains neither
+the recorded schedule nor the name maps nor exact counts, and is FALSE (`not_siftSpec` in
+DDProofs.DynApply).  The C09 theorems use `SiftContract` (DDProofs.DynGeneric) instead. -/
 structure SiftSpec : Prop where
   run : ∀ (m : Mgr), Inv m → m.lastLen = none → 2 ≤ m.nvars →
     ∃ m', reorder none m = (.ok (), m') ∧ Inv m' ∧ m'.lastLen = none ∧ m'.ctx = m.ctx ∧
